@@ -3,6 +3,10 @@
 MC   MC_Fields*.cfg: partition / offsets / cut characterisation for every line <= 5 (quick) / 6 (thorough) over
      {a b , : space TAB e~} x 9 delimiters; selection, --nth soundness/completeness and rendition invariants are
      checked in the same TLC runs that export the cases.
+     AWK style has a second alphabet (delimiter record awk:uni): TAB and SPACE - the only AWK blanks - next to CR, VT,
+     FF, NBSP, NEL and multi-byte characters whose UTF-8 bytes include 0xA0 / 0x85 / 0x80 (a-grave, a-ogonek, U+4F60,
+     U+5800): full menu on every line <= 3 / 4, in-package and through the binary; tokens only on every line
+     <= 3 / 4 over 22 symbols (also LF, BS, US, DEL, U+2003, U+3000, zero width space, dagger).
 E    TLC-exported cases replayed in-package (Tokenize, ParseRange, Transform, splitNth, BuildPattern+MatchItem,
      nthTransformer via the option parser, Item.acceptNth, replacePlaceholder) and through the real binary
      (fzf --filter with --nth / --delimiter / --with-nth, default and streaming path).
@@ -13,10 +17,15 @@ from vlib import replay_cases, record_and_judge, judge, write_ndjson, Infra, log
 
 LINE_KEYS = ["toks", "hits", "raw", "shown", "acc", "whits", "ph", "phs", "phq", "qph", "qphs"]
 FILES = ["zz_verif_common_test.go", "zz_verif_fields_test.go"]
-CLI_DELIMS = [("awk", ""), ("str", ","), ("str", ", "), ("str", "TAB"), ("re", "[,:]"), ("re", ",+")]
-ALL_DELIMS = CLI_DELIMS + [("re", ","), ("re", ", "), ("re", "TAB")]
+BASE_DELIMS = [("awk", ""), ("str", ","), ("str", ", "), ("str", "TAB"), ("re", "[,:]"), ("re", ",+")]
+CLI_DELIMS = BASE_DELIMS + [("awk", "uni")]      # awk:uni = AWK style again, on its own alphabet (MC_Fields.tla AwkU)
+ALL_DELIMS = BASE_DELIMS + [("re", ","), ("re", ", "), ("re", "TAB")]
 J_ALPHABET = ["a", "b", ",", ":", " ", "TAB", "e~", "a", ",", " ", "han", "A~", "c", "1", ";", "-", "/"]
 J_TERMSYMS = ["a", "b", ",", ":", "e~", "han", "A~", "c", "1", ";", "-", "/"]
+# characters that are not AWK blanks although something else takes them for white space (control characters, Unicode
+# white space, UTF-8 sequences with the bytes 0x85 / 0xA0 / 0x80) and wide characters; mixed into the random lines
+J_ODD = ["CR", "VT", "FF", "LF", "NBSP", "NEL", "IDSP", "EMSP", "ZWSP", "BS", "US", "DEL", "a`", "aog", "ni", "hori", "dag"]
+J_SPACES = {" ", "TAB", "CR", "VT", "FF", "LF", "NBSP", "NEL", "IDSP", "EMSP"}      # unicode.IsSpace: never inside a term
 
 
 def dkey(d):
@@ -24,7 +33,12 @@ def dkey(d):
 
 
 def txt(syms):
-    return "".join({"TAB": "\\t", " ": "_"}.get(s, s) for s in syms)
+    return "".join({"TAB": "\\t", " ": "_"}.get(s, s if len(s) == 1 or s.endswith("~") else "<%s>" % s) for s in syms)
+
+
+def ukey(d):
+    """which universe of lines a delimiter's cases are drawn from"""
+    return "uni" if (d["kind"], d["id"]) == ("awk", "uni") else "base"
 
 
 def expr(chars):
@@ -106,8 +120,13 @@ def run(ctx):
         toks5 = [c for c in gt.json_items("CASE") if len(c["line"]) == 5]
         if len(toks5) != 9 * 7 ** 5:
             raise Infra("token export incomplete: %d" % len(toks5))
-    if len(sels) != gs.distinct or len(parses) + 1 != gp.distinct:
+    ga = ctx.mc("MC_Fields", "Gen_Fields_awktok3.cfg" if quick else "Gen_Fields_awktok4.cfg", timeout=1500, workers=workers,
+                label="gen-awktok")
+    awktoks = ga.json_items("CASE")
+    if len(sels) != gs.distinct or len(parses) + 1 != gp.distinct or len(awktoks) != ga.distinct:
         raise Infra("export incomplete")
+    if not menu.get("chars") or not all(k in menu["chars"] for k in J_ODD):
+        raise Infra("character table missing in the menu")
 
     menu_path = os.path.join(ctx.work, "menu.json")
     with open(menu_path, "w") as fh:
@@ -116,14 +135,18 @@ def run(ctx):
     h = ctx.build_harness("src", FILES, shared=["chars"])
     fzf = ctx.build_fzf()
 
-    universe = sorted({json.dumps(c["line"]) for c in lines})
-    uid = {l: i for i, l in enumerate(universe)}
-    upath = os.path.join(ctx.work, "universe.json")
-    with open(upath, "w") as fh:
-        fh.write("[" + ",".join(universe) + "]")
-    e2e_env = {"VERIF_FZF": fzf, "VERIF_UNIVERSE": upath}
+    # the lines fed to the binary: one universe per alphabet (all delimiters of the base menu share theirs)
+    universes, uids, ualpha, e2e_envs = {}, {}, {}, {}
+    for u in ("base", "uni"):
+        universes[u] = sorted({json.dumps(c["line"]) for c in lines if ukey(c["d"]) == u})
+        uids[u] = {l: i for i, l in enumerate(universes[u])}
+        ualpha[u] = {x for l in universes[u] for x in json.loads(l)}
+        upath = os.path.join(ctx.work, "universe-%s.json" % u)
+        with open(upath, "w") as fh:
+            fh.write("[" + ",".join(universes[u]) + "]")
+        e2e_envs[u] = {"VERIF_FZF": fzf, "VERIF_UNIVERSE": upath}
     if ctx.replay:
-        return replay_one(ctx, h, env, e2e_env)
+        return replay_one(ctx, h, env, e2e_envs)
 
     # ---- in-package: lines
     def exp_line(c):
@@ -165,6 +188,13 @@ def run(ctx):
                          txt(c["line"]), dkey(c["d"]), json.dumps(exp["toks"]), json.dumps(r.get("got", {}).get("toks"))),
                      kf=lambda c, exp, r: {"site": "toks", "delimiter": dkey(c["d"])})
 
+    e5 = dict(env)
+    e5["VERIF_TOKONLY"] = "1"
+    replay_cases(ctx, h, "TestVerifFieldsLine", awktoks, lambda c: {"toks": c["toks"]}, "awktok", env=e5, timeout=1500,
+                 describe=lambda c, exp, r: "Tokenize(%r, %s): spec %s real %s" % (
+                     txt(c["line"]), dkey(c["d"]), json.dumps(exp["toks"]), json.dumps(r.get("got", {}).get("toks"))),
+                 kf=lambda c, exp, r: {"site": "toks", "delimiter": dkey(c["d"])})
+
     # ---- in-package: selection, every expression x shaped lines
     def desc_sel(c, exp, r):
         got = r.get("got", {})
@@ -195,7 +225,7 @@ def run(ctx):
     # ---- end to end: the real binary in filter mode; expected match sets = TLC's per-line results transposed
     exp_sets, wexp_sets = {}, {}
     for c in lines:
-        k, i = dkey(c["d"]), uid[json.dumps(c["line"])]
+        k, i = dkey(c["d"]), uids[ukey(c["d"])][json.dumps(c["line"])]
         for hit in c["hits"]:
             exp_sets.setdefault((k, hit[0]), []).append(i)
         for wc in c["whits"]:
@@ -205,8 +235,11 @@ def run(ctx):
     nwcomb = len(menu["specs"]) * cb.nWN * cb.nWK * cb.nWT
     for (kind, did) in CLI_DELIMS:
         d = {"kind": kind, "id": did}
+        alpha = ualpha[ukey(d)]
         for c0 in range(1, ncomb + 1):
             n, k, t = cb.combo(c0)
+            if not set(menu["terms"][t]) <= alpha:          # a term no line of this universe can contain
+                continue
             for stream in (False, True):
                 if stream and (c0 + ctx.seed) % 3:          # the streaming path on a third of the configurations
                     continue
@@ -218,11 +251,14 @@ def run(ctx):
             s, n, k, t = cb.wcombo(c0)
             if any(p["k"] == "n" for p in menu["specs"][s]["parts"]):
                 continue        # {n} depends on the ordinal of the line: in-package only
+            if not set(menu["wterms"][t]) <= alpha | {x for p in menu["specs"][s]["parts"] if p["k"] == "lit" for x in p["v"]}:
+                continue
             e2e.append({"d": d, "nth": menu["wnth"][n], "kind": menu["wkinds"][k], "term": menu["wterms"][t],
                         "spec": menu["specs"][s], "stream": False, "exp": sorted(wexp_sets.get((dkey(d), c0), []))})
 
     def desc_e2e(c, exp, r):
         got = r.get("got", [])
+        universe = universes[ukey(c["d"])]
         miss = [txt(json.loads(universe[i])) for i in exp if i not in got][:3]
         extra = [txt(json.loads(universe[i])) for i in got if i not in exp][:3]
         return "fzf %s over %d lines: spec matches %d, real %d; missing e.g. %s, extra e.g. %s %s" % (
@@ -231,8 +267,9 @@ def run(ctx):
     def kf_e2e(c, exp, r):
         return {"site": "e2e", "delimiter": dkey(c["d"]), "with_nth": c["spec"] is not None, "stream": c["stream"]}
 
-    replay_cases(ctx, h, "TestVerifFieldsE2E", e2e, lambda c: c["exp"], "e2e",
-                 env=e2e_env, describe=desc_e2e, kf=kf_e2e, timeout=1500)
+    for u in ("base", "uni"):
+        replay_cases(ctx, h, "TestVerifFieldsE2E", [c for c in e2e if ukey(c["d"]) == u], lambda c: c["exp"], "e2e-" + u,
+                     env=e2e_envs[u], describe=desc_e2e, kf=kf_e2e, timeout=1500)
 
     # ---- undetermined offsets (exact / fuzzy terms): every observed match is judged by the specification
     und = []
@@ -278,15 +315,21 @@ def run(ctx):
     ctx.cov["rule"] = ("exhaustive part: (line, delimiter, nth, kind, term) combinations where the term matches the whole "
                        "line and the --nth restriction changes the outcome (no match, or other offsets): %d; plus "
                        "(line, delimiter, expression) triples selecting a non-empty proper part of the line: %d. All "
-                       "generated by TLC from the bounded space (lines <= %d over 7 symbols x 9 delimiters x menu; shaped "
-                       "lines with 0..8 fields x 155 expressions A,B in -5..5)" % (nontrivial, sel_nontrivial, 3 if quick else 4))
+                       "generated by TLC from the bounded space (lines <= %d over 7 symbols x 9 delimiters and over 13 "
+                       "symbols [TAB SPACE CR VT FF NBSP NEL a-grave a-ogonek U+4F60 U+5800 a b] x AWK style, x menu; "
+                       "shaped lines with 0..8 fields x 155 expressions A,B in -5..5)" % (nontrivial, sel_nontrivial, 3 if quick else 4))
     ctx.cov["exhaustive"] = True
     ctx.cov["cases"] = {"line": len(lines), "tok5": len(toks5), "sel": len(sels), "sel_expressions": len(menu["exprs"]),
-                        "parse": len(parses), "e2e_runs": len(e2e), "e2e_universe": len(universe),
+                        "parse": len(parses), "e2e_runs": len(e2e), "e2e_universe": {u: len(universes[u]) for u in universes},
+                        "awk_tokens_22_symbols": len(awktoks),
                         "judged_undetermined_offsets": len(und), "j_records": len(recs),
                         "j_matches_found": sum(1 for r in jm if r["matched"]), "j_matches": len(jm),
                         "lines_per_delimiter": by_key}
-    ctx.cov["traces_validated_against_impl"] += len(lines) + len(sels) + len(parses) + len(e2e) + len(toks5)
+    ctx.cov["traces_validated_against_impl"] += len(lines) + len(sels) + len(parses) + len(e2e) + len(toks5) + len(awktoks)
+    for c in lines:
+        if ukey(c["d"]) == "uni" and len(c["toks"]) == 2 and {"hori", "NBSP"} <= set(c["line"]):
+            ctx.sample({"line": txt(c["line"]), "delimiter": dkey(c["d"]), "tokens": [[txt(t["t"]), t["p"]] for t in c["toks"]]})
+            break
     for c in lines:
         if len(c["toks"]) == 3 and len(c["hits"]) > 20 and "e~" in c["line"]:
             ctx.sample({"line": txt(c["line"]), "delimiter": dkey(c["d"]), "tokens": [[txt(t["t"]), t["p"]] for t in c["toks"]],
@@ -302,7 +345,9 @@ def run(ctx):
     ctx.assumptions += [
         "delimiters are the fixed menu awk / ',' / ', ' / TAB (literal) and ',' ', ' TAB '[,:]' ',+' (regex); other "
         "regular expressions (empty matches, alternation priorities) are not modelled",
-        "terms are case-sensitive, not normalised, contain no blank; what a term kind means on a text is C01/C02's "
+        "AWK-style blanks are exactly TAB and SPACE; every other character (control characters, Unicode white space, any "
+        "multi-byte character) is field content - bound on the characters of spec/FzfChars.tla only",
+        "terms are case-sensitive, not normalised, contain no white space; what a term kind means on a text is C01/C02's "
         "subject, C10 binds where it is searched and how offsets are shifted",
         "--accept-nth is bound at Item.acceptNth + the parsed transformer (not through a tty)",
         "trailing-delimiter corner is CODE-DERIVED: a literal delimiter at the end of a line yields a final empty "
@@ -345,6 +390,11 @@ def rnd_line(rng, d):
     bias = {"awk": [" ", " ", "TAB"], ",": [",", ","], ", ": [",", " ", ","], "TAB": ["TAB", "TAB"],
             "[,:]": [",", ":"], ",+": [",", ",", ","]}[d[1] if d[0] != "awk" else "awk"]
     pool = J_ALPHABET + bias * 2
+    r = rng.random()
+    if r < 0.5:                  # half of the lines: odd characters mixed in (a third of the symbols)
+        pool = pool + [rng.choice(J_ODD) for _ in range(len(pool) // 2)]
+    elif r < 0.6:                # words glued by odd characters, separated by the delimiter's own symbols
+        pool = ["a", "b"] + J_ODD + bias * 3
     return [rng.choice(pool) for _ in range(n)]
 
 
@@ -356,7 +406,7 @@ def rnd_term(rng, line):
             sub = line[i:i + n]
             if rng.random() < 0.3 and len(sub) > 1:        # scattered characters for fuzzy terms
                 sub = [line[j] for j in sorted(rng.sample(range(len(line)), min(len(line), n)))]
-            if sub and all(s not in (" ", "TAB") for s in sub):
+            if sub and all(s not in J_SPACES for s in sub):
                 return sub
     return [rng.choice(J_TERMSYMS) for _ in range(rng.randint(1, 2))]
 
@@ -405,7 +455,7 @@ def random_inputs(ctx, total):
 
 
 # ------------------------------------------------------------------------------------------------ --replay
-def replay_one(ctx, h, env, e2e_env):
+def replay_one(ctx, h, env, e2e_envs):
     """bin/check C10 <tier> --replay <file>: re-run exactly the recorded case (same tier as recorded, so that the
     e2e universe is the same)."""
     rp = json.load(open(ctx.replay))["case"]
@@ -418,7 +468,7 @@ def replay_one(ctx, h, env, e2e_env):
     e = dict(rp.get("env", {}))
     e.update(env)
     if rp["harness"] == "TestVerifFieldsE2E":
-        e.update(e2e_env)
+        e.update(e2e_envs[ukey(rp["case"]["d"])])
     exp = rp["expected"]
     replay_cases(ctx, h, rp["harness"], [rp["case"]], lambda c: exp, rp.get("label", "replay"), env=e)
     return "model_checking"
